@@ -284,6 +284,9 @@ func (g *Gen) listLen() int {
 	if g.K.LongLists && g.R.P(0.3) {
 		return g.R.Range(48, 120)
 	}
+	if g.R.P(0.08) {
+		return g.R.Range(6, 40) // medium: beyond what fits a handful of comparisons
+	}
 	return g.R.Range(0, 5)
 }
 
